@@ -103,6 +103,16 @@ pub fn build(g: &Grammar, thorough: bool) -> Vec<Case17> {
                 out.push(Case17 { label: format!("{label} as {enc} pad {pad}"), class: format!("valid:{enc}"), bytes: encode(&padded, enc), expect: padded });
             }
         }
+        // the first character: every ASCII character a file can start with (white space, a comment, a keyword, /begin);
+        // the detection of BOM-less UTF-16 / UTF-32 looks at the first bytes
+        for (lname, lead) in [("lf", "\n"), ("space", " "), ("tab", "\t"), ("crlf", "\r\n"), ("lf-lf-space", "\n\n "), ("block-comment", "/* c */\n"), ("line-comment", "// c\n"), ("non-ascii-comment", "/* é */\n")] {
+            for enc in ENCODINGS {
+                for pad in [0usize, 1] {
+                    let t2 = format!("{lead}{text}{}", " ".repeat(pad));
+                    out.push(Case17 { label: format!("{label} with leading {lname} as {enc} pad {pad}"), class: format!("valid:lead-{lname}:{enc}"), bytes: encode(&t2, enc), expect: t2 });
+                }
+            }
+        }
         // not valid Unicode -> read as Latin-1 as a whole
         let utf8 = text.as_bytes().to_vec();
         // (a) a stray byte at the end, (b) in the middle of the first string, (c) a truncated multi-byte sequence
@@ -235,7 +245,7 @@ pub fn run(tier: &str) -> Run {
     let _ = std::fs::remove_dir_all(&dir);
     run.require("valid: equal models", 1000);
     run.require("invalid: equal models", 20);
-    run.rule = "carrier documents with non-ASCII content (2-, 3- and 4-byte characters, U+FFFD, a UTF-8 look-alike of Latin-1) in a string, a block comment and a line comment x 10 encodings x trailing padding 0..3 (every length residue the encoding allows); the same documents made invalid Unicode in three ways (stray byte, Latin-1 byte inside a string, truncated sequence) must behave like their Latin-1 reading; totality: every 4-byte prefix over {00,41,FE,FF,EF,BB,BF,D8,DC} in front of a body in five encodings. Oracle: load(file) and load_from_string(expected text) give the same result (Debug of the model, number of diagnostics, error variant).".into();
+    run.rule = "carrier documents with non-ASCII content (2-, 3- and 4-byte characters, U+FFFD, a UTF-8 look-alike of Latin-1) in a string, a block comment and a line comment x 10 encodings x trailing padding 0..3 (every length residue the encoding allows); each document also with 8 different beginnings (line feed, space, tab, CRLF, blank lines, block comment, line comment, comment with a non-ASCII character) x 10 encodings x 2 paddings; the same documents made invalid Unicode in three ways (stray byte, Latin-1 byte inside a string, truncated sequence) must behave like their Latin-1 reading; totality: every 4-byte prefix over {00,41,FE,FF,EF,BB,BF,D8,DC} in front of a body in five encodings. Oracle: load(file) and load_from_string(expected text) give the same result (Debug of the model, number of diagnostics, error variant).".into();
     run
 }
 
